@@ -3,6 +3,8 @@ package main
 import (
 	"context"
 	"fmt"
+	"runtime"
+	"strings"
 	"time"
 
 	openfgav1 "github.com/openfga/api/proto/openfga/v1"
@@ -27,7 +29,7 @@ func chain(depth int) *openfgav1.Userset {
 func main() {
 	s := server.MustNewServerWithOpts(server.WithDatastore(memory.New()))
 	ctx := context.Background()
-	for _, cfg := range [][2]int{{30, 0}, {300, 0}, {1000, 0}, {30, 1000}, {300, 1000}, {300, 3000}, {1000, 3000}} {
+	for _, cfg := range [][2]int{{1000, 0}} {
 		n, d := cfg[0], cfg[1]
 		rels := map[string]*openfgav1.Userset{}
 		meta := map[string]*openfgav1.RelationMetadata{}
@@ -43,7 +45,27 @@ func main() {
 		wire := proto.Unmarshal(b, &openfgav1.WriteAuthorizationModelRequest{})
 		start := time.Now()
 		done := make(chan error, 1)
-		go func() { _, err := s.WriteAuthorizationModel(ctx, req); done <- err }()
+		tctx, cancel := context.WithTimeout(ctx, 2*time.Second)
+		defer cancel()
+		go func() { _, err := s.WriteAuthorizationModel(tctx, req); done <- err }()
+		go func() {
+			for _, at := range []int{3, 9} {
+				time.Sleep(time.Duration(at) * time.Second)
+				buf := make([]byte, 1<<20)
+				n := runtime.Stack(buf, true)
+				for _, g := range strings.Split(string(buf[:n]), "\n\n") {
+					if strings.Contains(g, "WriteAuthorizationModel") {
+						ls := strings.Split(g, "\n")
+						for i, l := range ls {
+							if i > 0 && i < 16 && !strings.HasPrefix(l, "\t") {
+								fmt.Println("   ", l[:min(len(l), 110)])
+							}
+						}
+						fmt.Println("    ----")
+					}
+				}
+			}
+		}()
 		select {
 		case err := <-done:
 			msg := fmt.Sprint(err)
